@@ -438,7 +438,103 @@ fn n_prepop_units() -> usize {
     NG.len()
 }
 fn units(_tier: &str) -> usize {
-    n_target_units() + n_record_units() + n_rec_units() + n_file_units() + n_prepop_units() + 1
+    n_target_units() + n_record_units() + n_rec_units() + n_file_units() + n_prepop_units() + 1 + 1
+}
+
+// ---------------------------------------------------------------- (viii) recursive logging while the specification changes
+
+struct Talkative {
+    inner: std::sync::Arc<Box<dyn Log>>,
+    sched: std::sync::Arc<crate::sched::Sched>,
+}
+impl std::fmt::Display for Talkative {
+    fn fmt(&self, f: &mut std::fmt::Formatter<'_>) -> std::fmt::Result {
+        // user code that runs inside a log call: a scheduling point, then a nested log call
+        self.sched.sync_op(flexi_logger::verif_hooks::Op::Point("user_display"));
+        self.inner.log(&log::Record::builder().args(format_args!("inner")).level(log::Level::Info).target("t").module_path(Some("t")).build());
+        write!(f, "talkative")
+    }
+}
+
+/// One thread logs a record whose Display implementation logs itself, another thread changes the
+/// specification: every schedule (<= 2 preemptions) must let both finish. A lock held across the
+/// user's formatting code shows as a deadlock (the scheduler sees both threads blocked for real).
+fn recursion_vs_reconfiguration(tier: &str, out: &mut Out) {
+    use crate::sched::{self, Abort, SchedCfg};
+    use std::sync::Arc;
+    for kind in [false, true] {
+        let cfg = SchedCfg {
+            ignore: vec!["flw_pool_pop", "flw_pool_push", "std_pool_pop", "std_pool_push", "open", "rename", "cleanup_list", "symlink_remove", "symlink_create", "write", "flush"],
+            detect_real_blocking: true,
+            ..SchedCfg::default()
+        };
+        let body: Arc<dyn Fn(&Arc<sched::Sched>) -> Result<(), String> + Send + Sync> = Arc::new(move |s: &Arc<sched::Sched>| {
+            let env = Env::in_current("c10s");
+            let lb = Logger::with(LogSpecification::info()).format(lg::payload_format).error_channel(ErrorChannel::File(env.err.clone()));
+            let lb = if kind {
+                lb.log_to_file(FileSpec::default().directory(&env.dir).basename("app").suppress_timestamp())
+            } else {
+                lb.log_to_writer(Box::new(Recorder::new(LevelFilter::Trace)))
+            };
+            let (logger, handle) = lb.build().map_err(|e| e.to_string())?;
+            let logger: Arc<Box<dyn Log>> = Arc::new(logger);
+            let (la, sa) = (Arc::clone(&logger), Arc::clone(s));
+            let ja = s.spawn("logging", move || {
+                let t = Talkative {
+                    inner: Arc::clone(&la),
+                    sched: sa,
+                };
+                la.log(&log::Record::builder().args(format_args!("outer says {t}")).level(log::Level::Info).target("t").module_path(Some("t")).build());
+            });
+            let h2 = handle.clone();
+            let jb = s.spawn("changing", move || {
+                h2.set_new_spec(LogSpecification::debug());
+                std::mem::forget(h2);
+            });
+            s.join(ja);
+            s.join(jb);
+            handle.shutdown();
+            drop(logger);
+            Ok(())
+        });
+        let mut bad: Option<(String, Vec<usize>)> = None;
+        let mut machinery: Option<String> = None;
+        let clock = || Some(crate::hooks::VClock::new(crate::hooks::base_instant()));
+        let stats = sched::explore(&cfg, Some(if tier == "quick" { 2 } else { 3 }), 50_000, &clock, body, &mut |choices, ex| {
+            if ex.stalled {
+                machinery = Some(format!("execution stalled; schedule {choices:?}"));
+                return false;
+            }
+            match (&ex.abort, &ex.obs) {
+                (Some(Abort::Diverged(m)), _) => {
+                    machinery = Some(format!("replay diverged: {m}; schedule {choices:?}"));
+                    false
+                }
+                (Some(Abort::Deadlock(d)), _) => {
+                    bad = Some((format!("deadlock: {d}"), choices.to_vec()));
+                    false
+                }
+                (None, Some(Err(e))) => {
+                    bad = Some((e.clone(), choices.to_vec()));
+                    false
+                }
+                _ => true,
+            }
+        });
+        out.evaluations += stats.schedules;
+        out.transitions += stats.choice_points;
+        out.count("recursion_vs_reconfiguration_schedules", stats.schedules);
+        out.nontrivial(&("sched-recursion", kind));
+        let what = if kind { "file" } else { "custom-writer" };
+        if let Some(m) = machinery {
+            out.violation(Violation::new("machinery", "scheduler", format!("recursive logging vs set_new_spec ({what}): {m}"), json!({"kind": "sched-recursion"})));
+        } else if let Some((d, sch)) = bad {
+            out.outcome("hang");
+            out.violation(Violation::new("hang", format!("recursive-logging-vs-set_new_spec/{what}"), format!("one thread logs a record whose Display implementation logs, another calls set_new_spec; schedule {sch:?}: {d}"), json!({"kind": "sched-recursion", "schedule": sch})));
+        } else {
+            out.outcome("ok");
+        }
+    }
 }
 fn bounds(_tier: &str) -> Value {
     json!({"target_strings": crate::word_count(TTOK.len(), 4) * 2, "output_kinds": KINDS.len(), "messages": messages().len(), "file_configurations": BASENAMES.len() * DISCRS.len() * SUFFIXES.len() * 2 * 2 * namings().len(), "near_miss_names": NEAR.len()})
@@ -560,6 +656,10 @@ fn run_unit(tier: &str, unit: usize, out: &mut Out) {
                 }
             }
         }
+        return;
+    }
+    if u > n_prepop_units() {
+        recursion_vs_reconfiguration(tier, out);
         return;
     }
     // (iii) + (vii)
